@@ -146,6 +146,48 @@ class Builder:
         self.build_s = time.time() - t0
         return bins
 
+UNIT_CFGS = [('g++', '-O0'), ('g++', '-O2'), ('clang++', '-O0'), ('clang++', '-O2')]
+
+def build_units_probes(b):
+    """C20 'every build': compile src/Natural_Units.cpp with each compiler/optimisation level together with a generated probe that
+    prints every constant declared in Natural_Units.hpp as a hex float; returns the directory holding <cfg>.txt (cached by content)."""
+    import re
+    hdr = os.path.join(b.repo, 'include', 'libphysica', 'Natural_Units.hpp')
+    src = os.path.join(b.repo, 'src', 'Natural_Units.cpp')
+    names = []
+    for decl in re.findall(r'extern\s+const\s+double\s+([^;]+);', open(hdr).read()):
+        names += [n.strip() for n in decl.split(',') if n.strip()]
+    key = sha(read(src), b.hdr_hash, repr(UNIT_CFGS), 'v3')
+    outdir = os.path.join(BUILD, 'units', key)
+    if all(os.path.exists(os.path.join(outdir, '%s_%s.txt' % (cxx, opt[1:]))) for cxx, opt in UNIT_CFGS):
+        return outdir
+    os.makedirs(outdir, exist_ok=True)
+    probe = os.path.join(outdir, 'probe.cpp')
+    with open(probe, 'w') as f:
+        f.write('#include <cstdio>\n#include "libphysica/Natural_Units.hpp"\nusing namespace libphysica::natural_units;\nint main(){\n')
+        for n in names:
+            f.write('  std::printf("%s %%a\\n", %s);\n' % (n, n))
+        f.write('  return 0;\n}\n')
+    def one(cfg):
+        cxx, opt = cfg
+        exe = os.path.join(outdir, 'probe_%s_%s' % (cxx, opt[1:]))
+        # only the constants are referenced: unused functions (In_Units, ...) are dropped at link time, so the rest of the library is not needed
+        cmd = [cxx, '-std=c++14', opt, '-w', '-ffunction-sections', '-fdata-sections'] + b.inc + [src, probe, '-Wl,--gc-sections', '-o', exe]
+        r = run(cmd)
+        if r.returncode != 0:
+            r = run(cmd + ['-Wl,--unresolved-symbols=ignore-all'])
+        if r.returncode != 0:
+            raise RuntimeError('unit probe build failed for %s %s\n%s' % (cxx, opt, r.stdout[-3000:]))
+        rr = run([exe])
+        if rr.returncode != 0:
+            raise RuntimeError('unit probe crashed for %s %s' % (cxx, opt))
+        tmp = os.path.join(outdir, '%s_%s.txt.tmp' % (cxx, opt[1:]))
+        open(tmp, 'w').write(rr.stdout)
+        os.replace(tmp, os.path.join(outdir, '%s_%s.txt' % (cxx, opt[1:])))
+    with ThreadPoolExecutor(max_workers=4) as ex:
+        list(ex.map(one, UNIT_CFGS))
+    return outdir
+
 def all_props():
     return sorted(os.path.basename(p)[:-4] for p in glob.glob(os.path.join(VERIF, 'props', 'C??.cpp')))
 
@@ -161,8 +203,11 @@ def prune_build(keep_days=2.0):
                 pass
 
 # ------------------------------------------------------------------------------------------------------------------
+EXTRA_ENV = {}
+
 def san_env(rundir):
     env = dict(os.environ)
+    env.update(EXTRA_ENV)
     env['ASAN_OPTIONS'] = 'detect_leaks=0:abort_on_error=0:exitcode=99:log_path=%s/asan:allocator_may_return_null=1:detect_stack_use_after_return=0' % rundir
     env['UBSAN_OPTIONS'] = 'print_stacktrace=1:exitcode=99:log_path=%s/ubsan' % rundir
     env['VERIF_DIR'] = VERIF
@@ -213,6 +258,11 @@ def check(pid, tier, repo, seed, scale, clauses, jobs, keep=False):
         log('BUILD-ERROR', str(e)[-3000:])
         log('note: the library or harness did not compile; this is a machinery/build failure, not a verdict')
         return 2
+    if pid == 'C20':
+        try:
+            EXTRA_ENV['VERIF_UNITS_DIR'] = build_units_probes(b)
+        except RuntimeError as e:
+            log('BUILD-ERROR', str(e)[-3000:]); return 2
     rundir = os.path.join(BUILD, 'run', '%s-%s-%d' % (pid, tier, os.getpid()))
     shutil.rmtree(rundir, ignore_errors=True)
     os.makedirs(rundir)
@@ -379,6 +429,11 @@ def main():
             bins = Builder(repo).build(all_props(), jobs)
         except RuntimeError as e:
             log('SETUP-ERROR', e); return 2
+        if 'C20' in bins:
+            try:
+                build_units_probes(Builder(repo))
+            except RuntimeError as e:
+                log('SETUP-ERROR', e); return 2
         log('setup: built %d property binaries in %.1fs' % (len(bins), time.time() - t0))
         return 0
     if '--replay' in a:
@@ -397,7 +452,10 @@ def main():
         pid = opt('--property', pid)
         if pid not in all_props():
             log('cannot determine the property of', case); return 2
-        binary = Builder(repo).build([pid], jobs)[pid]
+        bb = Builder(repo)
+        binary = bb.build([pid], jobs)[pid]
+        if pid == 'C20':
+            EXTRA_ENV['VERIF_UNITS_DIR'] = build_units_probes(bb)
         rundir = os.path.join(BUILD, 'run', 'replay-%d' % os.getpid())
         os.makedirs(rundir, exist_ok=True)
         rc, txt = replay_once(binary, case, rundir, quiet=False)
